@@ -185,6 +185,9 @@ def focus_blocks(case, rnd):
     size = max(1.0, float(a.get('size', 4.0)))
     a['size'] = size
     k = rnd.choice([2, 2, 3, 4])
+    if rnd.random() < 0.6:
+        k = max(1, min(k, g['T_nominal'] // 3))       # at least three blocks
+        a['inflow'] = gen.q8(rnd, 0.125, 0.5) * (3600.0 / g['step_s'] if g['step_s'] <= 3600 else 0.25)
     tot = g['step_s'] * k
     a['block_size'] = ('%dmin' % (tot // 60)) if tot % 3600 else ('%dh' % (tot // 3600))
     a['start_level'] = gen.q8(rnd, size / 2, size)
